@@ -678,6 +678,8 @@ class Simulation:
     def _connect_measurements_fct(self, module_name, func_name, extra_kwargs=None, priority=0):
         if extra_kwargs is None:
             extra_kwargs = {}
+        else:
+            extra_kwargs = dict(extra_kwargs)  # modified below; the entry belongs to the options
         wrap = False
         if func_name.startswith('wrap'):
             wrap = True
@@ -895,6 +897,8 @@ class Simulation:
         # get function / from module_name namespace
         if extra_kwargs is None:
             extra_kwargs = {}
+        else:
+            extra_kwargs = dict(extra_kwargs)  # modified below; the entry belongs to the options
         function = hdf5_io.find_global(module_name, func_name)
         # check if results_key is supplied
         if 'results_key' in extra_kwargs:
